@@ -109,6 +109,9 @@ func GenHistory(seed uint64, idx int, p Profile) History {
 	r := NewRng(seed*1000003 + uint64(idx))
 	g := &genState{r: r, p: p, commits: map[int]*Msg{}, former: map[int]int{}, feeders: map[int]int{}, nftOwner: map[uint64]int{}, jailed: map[int]bool{}}
 	nv := 3 + r.Intn(3)
+	if p.Probono && r.Chance(30) {
+		nv = 6 + r.Intn(2) // the chain runs with constant power 1 per validator: shares of 1/6 need six of them
+	}
 	g.nVals = nv
 	gen := HGenesis{NAccts: nv + 5, Funds: 1000000, Nft: p.Internal, OracleFee: p.OracleFee, BigFunds: p.Adversarial && r.Chance(50)}
 	for i := 0; i < nv; i++ {
@@ -142,6 +145,10 @@ func GenHistory(seed uint64, idx int, p Profile) History {
 	if p.Internal {
 		owner := MakeAcct(gen.NAccts - 1)
 		g.nftAddr = ethcrypto.CreateAddress(owner.Hex(), 0).Hex()
+	}
+	if p.Isolation {
+		// the tenant under observation is not always the one with the lowest id (store order = id order)
+		g.h.Focal = []uint64{1, 1, 2, 2, 2, 3}[r.Intn(6)]
 	}
 	if p.Imported {
 		g.importedGenesis()
@@ -213,7 +220,7 @@ func (g *genState) userFor(tid uint64) int {
 	if !g.p.Isolation {
 		return g.user()
 	}
-	if tid == 1 {
+	if tid == g.h.FocalTenant() {
 		return g.users[g.r.Intn(2)]
 	}
 	return g.users[2+g.r.Intn(len(g.users)-2)]
@@ -544,6 +551,12 @@ func (g *genState) block() {
 				envs = append(envs, Env{Kind: "bank_send", From: g.user(), To: -1 - int(t.id), Denom: t.denom, Amount: fmt.Sprint(1 + r.Intn(300000))})
 			}
 		}
+	}
+	if g.p.Probono && r.Chance(12) {
+		// the reward pool is also fed from outside the fee path: small amounts, amounts not divisible by the power
+		// sum, and amounts of whole coins (10^18 base units and above, where an 18-digit share error becomes visible)
+		amt := []string{"1", "7", "1000003", "6000000000000000000", "3000000000000000007", "123456789012345678901234", "999999999999999999"}[r.Intn(7)]
+		envs = append(envs, Env{Kind: "pool_fund", From: g.user(), Denom: []string{"asetl", "uusdc", "setl"}[r.Intn(3)], Amount: amt})
 	}
 	if r.Chance(15) && len(g.tenants) > 0 {
 		t := g.pickTenant()
